@@ -154,7 +154,7 @@ std::string runStatic(const std::vector<Op>& ops, hv::Stats& st, bool& nontrivia
 	return "";
 }
 
-static const unsigned PCAPS[7] = {1, 2, 3, 4, 7, 16, 64};
+static const unsigned PCAPS[10] = {1, 2, 3, 4, 7, 16, 64, 255, 256, 257};
 
 std::vector<Op> decodeOps(hv::Reader& r) {
 	std::vector<Op> ops;
@@ -164,9 +164,10 @@ std::vector<Op> decodeOps(hv::Reader& r) {
 
 template <template <Long> class F, typename... A>
 std::string byCap(unsigned sel, A&&... a) {
-	switch (sel % 7) {
+	switch (sel % 10) {
 	case 0: return F<1>::run(a...); case 1: return F<2>::run(a...); case 2: return F<3>::run(a...); case 3: return F<4>::run(a...);
-	case 4: return F<7>::run(a...); case 5: return F<16>::run(a...); default: return F<64>::run(a...);
+	case 4: return F<7>::run(a...); case 5: return F<16>::run(a...); case 6: return F<64>::run(a...);
+	case 7: return F<255>::run(a...); case 8: return F<256>::run(a...); default: return F<257>::run(a...); // index types change at 256
 	}
 }
 template <Long N> struct PoolV { static std::string run(const std::vector<Op>& o, hv::Stats& s, bool& n) { return runPool<void, N>(o, s, n); } };
@@ -213,7 +214,7 @@ static std::string hv_render(const hv::Bytes& c) {
 	const unsigned mode = r.u8() % 5, sel = r.u8();
 	std::vector<Op> ops = decodeOps(r);
 	std::ostringstream o;
-	o << MODES[mode] << " cap " << PCAPS[sel % 7] << ":";
+	o << MODES[mode] << " cap " << PCAPS[sel % 10] << ":";
 	static const char* pool[8] = {"emplace", "emplace", "emplace", "emplace", "remove", "remove", "clear?", "read"};
 	static const char* dyn[8] = {"append", "append", "append", "+=", "copy-back", "copy-indep", "clear?", "write"};
 	static const char* sta[6] = {"write", "write", "fill", "clear", "swapAB", "B=A"};
@@ -230,7 +231,7 @@ static rc::Gen<hv::Bytes> hv_gen() {
 	auto op = gen::map(gen::tuple(hv::byte(), hv::byte(), hv::byte(), hv::byte()), [](const std::tuple<uint8_t, uint8_t, uint8_t, uint8_t>& t) {
 		return std::array<uint8_t, 4>{{std::get<0>(t), std::get<1>(t), std::get<2>(t), std::get<3>(t)}};
 	});
-	return gen::map(gen::tuple(hv::weighted({3, 3, 2, 1, 1}), hv::range(0, 7), gen::container<std::vector<std::array<uint8_t, 4>>>(op)),
+	return gen::map(gen::tuple(hv::weighted({3, 3, 2, 1, 1}), hv::range(0, 10), gen::container<std::vector<std::array<uint8_t, 4>>>(op)),
 		[](const std::tuple<int, int, std::vector<std::array<uint8_t, 4>>>& t) {
 			hv::Bytes b{(uint8_t) std::get<0>(t), (uint8_t) std::get<1>(t)};
 			for (auto& o : std::get<2>(t)) b.insert(b.end(), o.begin(), o.end());
